@@ -84,12 +84,17 @@ ASSUME = ["database is a dict started empty", "hash = identity in the model: kec
           "exhaustive only within the bounded universe named in tlc_runs; generated histories beyond it are samples"]
 
 
-def generic(prop, tier, quick, thorough, *, opts=(), modes=("plain",), ntr=(60, 600), prune=None):
+def generic(prop, tier, quick, thorough, *, opts=(), modes=("plain",), ntr=(60, 600), prune=None,
+            need_tags=()):
     rep = Report(prop, tier, LEVEL)
     rep.assumptions += ASSUME
     for kw in (quick if tier == "quick" else thorough):
         run_spec_to_code(rep, cfg(**kw), opts)
-    run_code_to_spec(rep, modes, ntr[0] if tier == "quick" else ntr[1], prune)
+    if modes:
+        run_code_to_spec(rep, modes, ntr[0] if tier == "quick" else ntr[1], prune)
+    for t in need_tags:
+        if not rep.cov.get("case_tags", {}).get(t):
+            rep.vacuity.append(f"no replayed behaviour was tagged '{t}'")
     return rep.finish()
 
 
@@ -102,4 +107,59 @@ def c01(tier):
                    modes=("plain", "batch"), ntr=(100, 1500))
 
 
-CHECKS = {"C01": c01}
+def c02(tier):
+    inv = ["Canonical", "EmptyIsBlankRoot", "PairsAreContents"]
+    pr = ["OrderIndependent"]
+    th = dict(keys="KThresh", look="LThresh", maxlive=3, maxbatch=2, invariants=inv, properties=pr,
+              emit="EmitC01")
+    return generic("C02", tier,
+                   [dict(invariants=inv, properties=pr, level=5, emit="EmitC01"),
+                    dict(th, vals="VThreshA", features="FDirect", level=4)],
+                   [dict(keys="KFull", look="LFull", vals="VFull", maxlive=4, maxbatch=3,
+                         invariants=inv, properties=pr, level=6, emit="EmitC01"),
+                    dict(th, vals="VThreshA", level=5), dict(th, vals="VThreshB", level=5),
+                    dict(th, vals="VThreshC", level=6),
+                    dict(keys="KLong", look="LLong", vals="VLong", maxlive=4, invariants=inv,
+                         properties=pr, level=5, emit="EmitC01")],
+                   modes=("plain", "batch"), ntr=(100, 1500),
+                   need_tags=("child-node-of-31-bytes", "child-node-of-32-bytes", "embedded-child",
+                              "hashed-child", "root-shorter-than-32-bytes"))
+
+
+def c04(tier):
+    inv = ["Readable", "PastRootsReadable"]
+    pr = ["AppendOnly", "FailedWriteKeepsRoot"]
+    base = dict(prune="OnlyNoPrune", features="FHist", invariants=inv, properties=pr)
+    return generic("C04", tier,
+                   [dict(base, level=4, view="ViewFull")],
+                   [dict(base, level=5, view="ViewFull"),
+                    dict(base, level=6, view="ViewLight", invariants=["Readable"])],
+                   opts=("past",), modes=("second", "batch"), ntr=(80, 1000), prune=False)
+
+
+def c05(tier):
+    inv = ["Canonical", "Readable", "PruneExact", "RcTrue", "BatchRcTrue"]
+    pr = ["CommitExact", "AbortRestores", "OpenBatchIsolated", "AppendOnly"]
+    base = dict(features="FBatchFail", invariants=inv, properties=pr)
+    return generic("C05", tier,
+                   [dict(base, level=5)],
+                   [dict(base, level=7, maxbatch=3, features="FBatchNoop"),
+                    dict(base, level=6, keys="KShare", look="LShare", vals="VShare", maxbatch=3)],
+                   modes=("batch",), ntr=(100, 1500))
+
+
+def c06(tier):
+    inv = ["PruneExact", "RcTrue", "RegenAgrees", "BatchRcTrue", "Readable"]
+    base = dict(prune="OnlyPrune", invariants=inv, properties=["AbortRestores"])
+    return generic("C06", tier,
+                   [dict(base, level=5, features="FBatchNoop"),
+                    dict(base, level=5, keys="KShare", look="LShare", vals="VShare", features="FDirect")],
+                   [dict(base, level=7, keys="KFull", look="LFull", vals="VFull", maxlive=4,
+                         features="FBatchNoop", maxbatch=3),
+                    dict(base, level=7, keys="KShare", look="LShare", vals="VShare", maxlive=4,
+                         features="FBatchNoop", maxbatch=3)],
+                   modes=("plain", "batch"), ntr=(100, 1500), prune=True,
+                   need_tags=("ref-count>=2", "hashed-child", "embedded-child"))
+
+
+CHECKS = {"C01": c01, "C02": c02, "C04": c04, "C05": c05, "C06": c06}
